@@ -35,7 +35,10 @@ SPEC = {
                       "the mutating calls. (3') Component views of arrays, of masked references, of copies and of FixedVArray rows join the "
                       "ownership scenarios; after every release the heap is recycled with same-size arrays so that a stale view reads wrong also "
                       "without a sanitizer. (4') FixedArray2D a[mask]=array1d (full, compressed, wrong lengths), ifelse(mask, scalar) values. "
-                      "(5') memoryview of a masked reference with a sparse mask and of a component view of one.",
+                      "(5') memoryview of a masked reference with a sparse mask and of a component view of one. "
+                      "(5b) every ...ArrayFromBuffer constructor x sources strided along their FIRST dimension only (rows skipped or reversed, each row dense): all 55 distinct "
+                      "selections [a:b:s], s in +-1,+-2,+-3, of a 6-row 1-D / (6,W) buffer of every element type and of every exporting imath array class: the call raises or "
+                      "returns exactly the selected rows; dense selections of the right type must be copied.",
         "level_note": "Bounded: lengths <= 5 (1-D; <= 4 in the quick aliasing / component stages), <= 3 per dimension (2-D, matrix, V-array), histories of depth 4 (quick) / 5 (thorough) on an array of "
                       "length 3 with at most 4 live handles, 3 objects per ownership scenario; element values are small integers. Elements are observed "
                       "through integer __getitem__ and repr(). The liveness oracle relies on which view kinds borrow storage, read off the anchored "
@@ -44,7 +47,7 @@ SPEC = {
         "rule": "exhaustive enumeration over the stated small scopes plus explicit-state BFS over operation histories; states = array configurations, "
                 "distinct history states, release schedules and buffer cases; non-trivial = classes counted by a predicate on the input: negative / "
                 "out-of-range indices, zero-step / negative-step / clamped / empty slices, wrong-length and mixed masks, operations through "
-                "read-only handles, expected rejections, owner-released-before-view schedules, mismatching / oversize / non-contiguous buffer sources, "
+                "read-only handles, expected rejections, owner-released-before-view schedules, mismatching / oversize / non-contiguous buffer sources, forward- and reverse-row-strided 1-D and 2-D buffer sources, "
                 "indices beyond int / Py_ssize_t, non-binary and strided / masked / read-only masks, mixed masks under component views, aliasing stores "
                 "with a read-after-write hazard, mutating members on read-only receivers",
         "assumptions": ["CPython 3.11 (/usr/bin/python3.11) and Boost.Python 1.83; module built with the repository's CMake files (-DPYTHON=ON, Release)",
